@@ -18,6 +18,11 @@ pub enum SMode {
 pub struct SwCheck {
     pub mode: SMode,
 }
+impl SwCheck {
+    fn mode_is_ranges(&self) -> bool {
+        self.mode == SMode::Ranges
+    }
+}
 
 /// Semantic stress patterns: self/mutual references, redefinitions, shadowing, odd nestings.
 pub const STRESS: &[&str] = &[
@@ -390,7 +395,7 @@ impl Check for SwCheck {
     }
     fn units(&self, tier: Tier, _seed: u64) -> u64 {
         // generated bases | stress patterns | corpus files
-        tier.pick(48, 640) + STRESS.len() as u64 + 39
+        tier.pick(48, 640) + STRESS.len() as u64 + 39 + if self.mode_is_ranges() { tier.pick(32, 320) } else { 0 }
     }
     fn run_unit(&self, unit: u64, ctx: &mut Ctx) {
         let gen_units = ctx.tier.pick(48, 640);
@@ -418,6 +423,15 @@ impl Check for SwCheck {
                     self.check_state(&w, if state == "base" { "stress" } else { state }, ctx);
                 }
             }
+        } else if unit >= gen_units + STRESS.len() as u64 + 39 {
+            // C17 only: validity of what the server puts on the wire (positions in the coordinates of the file named)
+            crate::lspdrv::install_counting_hook();
+            for k in 0..ctx.tier.pick(3, 8) {
+                if ctx.features.get("watchdog").copied().unwrap_or(0) > 0 {
+                    break;
+                }
+                crate::lspchecks::wire_validity_case(unit, k, ctx);
+            }
         } else {
             let k = (unit - gen_units - STRESS.len() as u64) as usize;
             let f = &texts::corpus()[k];
@@ -441,7 +455,7 @@ impl Check for SwCheck {
         match self.mode {
             SMode::Totality => format!("{}. Oracle: no query panics (each is individually guarded and attributed), no stack overflow on the 2 MiB stack the server uses, no unit exceeds its CPU budget. non-trivial = a derived (broken) state or non-ASCII text; distinct by digest of all texts + root", states),
             SMode::Coherence => format!("{}. Oracle at every swept offset where go-to-definition answers: an identifier token lies under the cursor; the target is an identifier token of the named file with the same text; every reference is such a token; go-to-definition from each reference gives the same target; the cursor identifier is the target or one of the references. Identifier tokens are looked up in a fresh syntax::parse of the named file. non-trivial as above", states),
-            SMode::Ranges => format!("{}. Oracle: every range in every result (diagnostics, symbols and children, folding, links and their targets, hint positions, definitions, references) names a file in the key set of diagnostics(), lies within that file's current text, on UTF-8 character boundaries, start <= end. non-trivial as above", states),
+            SMode::Ranges => format!("{}. Oracle: every range in every result (diagnostics, symbols and children, folding, links and their targets, hint positions, definitions, references) names a file in the key set of diagnostics(), lies within that file's current text, on UTF-8 character boundaries, start <= end. ON THE WIRE: additional units drive the real server in process on generated multi-file workspaces whose files have deliberately different line structures (1-30 leading blank lines in some, malformed tails in some, non-ASCII, CRLF/mixed); every URI in every answer (definition, references with declaration, documentSymbol, foldingRange, documentLink incl. targets, inlayHint, publishDiagnostics) must name a workspace file and every position must exist in the current text of the file it is attached to: the line exists, the UTF-16 column is at most the line's width and does not split a surrogate pair, start <= end. non-trivial as above", states),
         }
     }
     fn floors(&self, tier: Tier) -> Vec<(&'static str, u64)> {
@@ -449,7 +463,7 @@ impl Check for SwCheck {
         let mut v = vec![("base_workspaces", n), ("base_with_includes", n / 4), ("state:prefix", n * 10), ("state:edit-delete", n), ("state:edit-replace", n), ("stress_patterns", STRESS.len() as u64), ("corpus_files", 39), ("base:non-ascii-adjacent", n / 6)];
         match self.mode {
             SMode::Coherence => v.extend([("goto_answers", n * 100), ("reference_roundtrips", n * 20)]),
-            SMode::Ranges => v.push(("ranges_checked", n * 1000)),
+            SMode::Ranges => v.extend([("ranges_checked", n * 1000), ("wire:workspaces", tier.pick(90, 2400)), ("wire:ranges_checked", tier.pick(3000, 100_000)), ("wire:references_answers", tier.pick(1000, 30_000)), ("wire:answers_naming_another_file", tier.pick(300, 10_000))]),
             _ => {}
         }
         v
